@@ -47,7 +47,8 @@ function removeRewrittenSourceMap (filename) {
 function getFilePathFromName (filename) {
   const filenameParts = filename.split(path.sep)
   filenameParts.pop()
-  return filenameParts.join(path.sep)
+  // the directory of a file directly under the root is the root, not the empty (relative) path
+  return filenameParts.join(path.sep) || (path.isAbsolute(filename) ? path.parse(filename).root : '')
 }
 
 function getPathAndLine (sourceMap, filename, line, column) {
